@@ -55,17 +55,12 @@ def newFromExtendedSeed (es : Bytes) : Outcome Key :=
 
 def Key.ops (k : Key) : Ops Bytes := opsFor hashOf k.hf k.skSeed k.pubSeed
 
-/-- the loop of `xmssFastUpdate`: one traversal step per skipped index. -/
-def fastForward (o : Ops Bytes) (h : Nat) : Nat → Nat → St Bytes → St Bytes
-  | 0, _, s => s
-  | n+1, j, s => fastForward o h n (j+1) (step o h s j)
-
 /-- `SetIndex` / `xmssFastUpdate` -/
 def setIndex (k : Key) (newIdx : Nat) : Outcome Key :=
   let cur := k.index
   if newIdx ≥ 2 ^ k.h then .refuse "index-high"
   else if newIdx < cur then .refuse "rewind"
-  else .ok { k with bds := fastForward (k.ops hashOf) k.h (newIdx - cur) cur k.bds, sk := setIdxBytes k.sk newIdx }
+  else .ok { k with bds := Bds.fastForward (k.ops hashOf) k.h (newIdx - cur) cur k.bds, sk := setIdxBytes k.sk newIdx }
 
 /-- `Sign` = `SetIndex(GetIndex())` then `xmssFastSignMessage` -/
 def sign (k : Key) (msg : Bytes) : Outcome (Key × Bytes) := do
@@ -80,6 +75,19 @@ def sign (k : Key) (msg : Bytes) : Outcome (Key × Bytes) := do
   let sig := toBytesBE idx 4 ++ r ++ wsig.flatten ++ (k.bds.auth.take k.h).flatten
   let bds := if idx < 2 ^ k.h - 1 then step (k.ops hashOf) k.h k.bds idx else k.bds
   pure ({ k with sk := setIdxBytes k.sk ((idx + 1) % 4294967296), bds := bds }, sig)
+
+/-- `count` consecutive 32-byte slices `l[off:off+32], l[off+32:off+64], …`, each with its bounds check. -/
+def slicesO (l : Bytes) (what : String) : Nat → Nat → Outcome (List Bytes)
+  | 0, _ => .ok []
+  | n+1, off =>
+    match sliceO l off (off+32) what with
+    | .ok s =>
+      match slicesO l what n (off+32) with
+      | .ok rest => .ok (s :: rest)
+      | .refuse c => .refuse c
+      | .fault w => .fault w
+    | .refuse c => .refuse c
+    | .fault w => .fault w
 
 /-- `xmssVerifySig` with the bounds checks of every slice expression. -/
 def verifySig (hf : Nat) (p : WParams) (msg sig pk : Bytes) (h : Nat) : Outcome Bool := do
@@ -96,11 +104,11 @@ def verifySig (hf : Nat) (p : WParams) (msg sig pk : Bytes) (h : Nat) : Outcome 
   let msgHash := hMsg hash msg hashKey
   let wots ← sliceO sig 36 sig.length "sigMsg[36:]"
   -- wotsPKFromSig slices sig[offset:offset+n] for every chain
-  let chains ← (List.range p.len).mapM (fun i => sliceO wots (i*32) (i*32+32) "wots sig chain")
+  let chains ← slicesO wots "wots sig chain" p.len 0
   let wpk ← wotsPKFromSig hash p chains msgHash pubSeed idx
   let leaf := lTree hash pubSeed idx p.len 0 wpk
   let authB ← sliceO sig (36 + p.keySize) sig.length "sigMsg[36+keySize:]"
-  let auth ← (List.range h).mapM (fun i => sliceO authB (i*32) (i*32+32) "authpath")
+  let auth ← slicesO authB "authpath" h 0
   let root' := validateAuthPath hash pubSeed leaf idx auth
   pure (root' == root)
 
